@@ -89,6 +89,15 @@ def extra_checks_mod():
     return extra_checks
 
 
+def dead_before(name):
+    """the contract case was already unrealised on the unchanged tree (recorded in some evidence file at rebaseline time)"""
+    p = os.path.join(ROOT, 'expected', 'dead_cases.json')
+    try:
+        return name in json.load(open(p))
+    except Exception:
+        return False
+
+
 def load_known():
     p = os.path.join(ROOT, 'known_findings.json')
     if not os.path.exists(p):
@@ -146,7 +155,12 @@ def run_property(prop, tier='quick', seed=0, jobs=None, rebaseline=False, only=N
 
 def report(prop, tier, seed, results, extra, trusted, t0, rebaseline, verbose):
     known = [k for k in load_known() if k['property'] == prop]
-    baseline = load_baseline().get(prop)
+    _allb = load_baseline()
+    baseline = _allb.get(prop)
+    # an obligation proved on the unchanged tree under ANY property counts as baseline (C14 adds functions whose twins diverge)
+    proved_somewhere = set()
+    for _l in _allb.values():
+        proved_somewhere.update(_l)
     obligations = []
     problems = {'refuted': [], 'undecided': [], 'unverifiable': [], 'selfcheck': [], 'missing': []}
     functions = []
@@ -214,13 +228,13 @@ def report(prop, tier, seed, results, extra, trusted, t0, rebaseline, verbose):
             continue
         if st == 'dead-case':
             counted -= 1
-            if baseline is not None and o['name'] in baseline and not rebaseline:
+            if baseline is not None and o['name'] in proved_somewhere and not rebaseline:
                 unreachable.append(o['name'])       # was realised on the unchanged tree, is not any more
             else:
                 dead_cases.append(o['name'])
             continue
         if st == 'vacuous':
-            if baseline is not None and o['name'] in baseline and o['kind'] == 'reach':
+            if baseline is not None and o['kind'] == 'reach' and (o['name'] in proved_somewhere or dead_before(o['name'])):
                 # the case was reachable on the unchanged tree: the code changed so that it no longer occurs (the contract
                 # over-approximates); reported, not a failure
                 unreachable.append(o['name'])
@@ -261,7 +275,7 @@ def report(prop, tier, seed, results, extra, trusted, t0, rebaseline, verbose):
         violations.append(o['name'])
         exit_code = 1
     for o in problems['undecided']:
-        if baseline is not None and o['name'] in baseline:
+        if baseline is not None and o['name'] in proved_somewhere:
             path, _ = replay.write_and_replay(prop, o, out_root, undecided=True)
             lines.append('VIOLATION property=%s replay=%s no-failing-input-found' % (prop, path))
             violations.append(o['name'])
@@ -328,6 +342,14 @@ def report(prop, tier, seed, results, extra, trusted, t0, rebaseline, verbose):
                             any(k['obligation'] == n for k, _ in known_lines))
         with open(p, 'w') as f:
             json.dump(allb, f, indent=0, sort_keys=True)
+        pd = os.path.join(ROOT, 'expected', 'dead_cases.json')
+        try:
+            dc = json.load(open(pd))
+        except Exception:
+            dc = []
+        dc = sorted(set(n for n in dc if not n.startswith(tuple(f['function'] + '/' for f in functions))) | set(dead_cases))
+        with open(pd, 'w') as f:
+            json.dump(dc, f, indent=0)
     for l in lines:
         print(l)
     if verbose:
